@@ -6,6 +6,8 @@ cd /verif
 ids=${@:-$(ls seeded | grep -E '^C[0-9]+-[0-9]+$')}
 for id in $ids; do
   P=${id%%-*}
+  # a change delivered for one property may belong to the check of another (seeded/<id>/check_with names it)
+  [ -f seeded/$id/check_with ] && P=$(cat seeded/$id/check_with)
   out=$(tools/mutant.sh $P seeded/$id/patch.diff $T 2>&1)
   if echo "$out" | grep -q "^VIOLATION"; then r=caught
   elif echo "$out" | grep -q "patch does not apply"; then r=does-not-apply
